@@ -842,7 +842,7 @@ package gldap
 //@   requires c != nil && r.conn == c && connIO(c) && c.router != nil && muxOK(c.router) && wOK(w) && !held(w.writerMu) && !isNilIface(c.logger) && G_wgcnt[&c.requestsWg] > 0 && w.writer == c.writer
 //@   entry    G_role[0] == 3
 //@   exit     G_wgcnt[&c.requestsWg] == old(G_wgcnt[&c.requestsWg]) - 1
-//@   panics false
+//@   panics false when !c.disablePanicRecovery
 //@   safety C07
 //@   tags C06 C08 C13
 
